@@ -485,6 +485,9 @@ def rule_d(ctx):
     from . import c01 as _c01
 
     _c01.rule_f(ctx)
+    from .common import rule_extent_keywords
+
+    rule_extent_keywords(ctx, "C01.g")
     ctx.rule("C01.b", "Image.num_voxels is read off the array at the time of the call (see C01.b)")
     _c01.rule_num_voxels(ctx, "C01.b")
     ctx.floor(R, 1)
